@@ -285,6 +285,100 @@ def mol2_recipes(rng, count):
     return out
 
 
+# ---------------------------------------------------------------- SMILES strings (extension: Smiles.tla)
+SMILES_MC_CFG = """SPECIFICATION Spec
+CONSTANTS AsBuilt = %s Depth = %d Emit = %s
+INVARIANT StepIsRun
+INVARIANT InvBondsSound
+INVARIANT InvRegisters
+INVARIANT InvBondCount
+INVARIANT InvConnected
+INVARIANT EmitWord
+CHECK_DEADLOCK FALSE
+"""
+SMILES_ATOMS = ["B", "C", "N", "O", "P", "S", "F", "Cl", "Br", "I", "b", "c", "n", "o", "p", "s"]
+
+
+def smiles_tokens(text):
+    """The harness's split of a string into tokens (TLC certifies it: every token is one, and they spell the text)."""
+    toks, i = [], 0
+    while i < len(text):
+        if text[i] == "%":
+            toks.append(text[i:i + 3]); i += 3
+        elif text[i:i + 2] in ("Cl", "Br"):
+            toks.append(text[i:i + 2]); i += 2
+        else:
+            toks.append(text[i]); i += 1
+    return toks
+
+
+def random_smiles(rng, size):
+    """Longer strings than TLC enumerates: nested branches, ring numbers used again after they were closed, %nn, halogens."""
+    out, natoms, open_rings, last_atom_bonded = [], [0], {}, {}
+    free = [str(d) for d in range(10)] * 4 + ["%10", "%12", "%37", "%99"]
+
+    def atom():
+        natoms[0] += 1
+        out.append(rng.choice(SMILES_ATOMS if rng.random() < 0.5 else ["C", "C", "c", "N", "O"]))
+        # ring closures directly after the atom
+        for _ in range(rng.choice([0, 0, 0, 1, 1, 2])):
+            closable = [r for r, a in open_rings.items() if natoms[0] - a >= 2]
+            if closable and rng.random() < 0.6:
+                r = rng.choice(closable)
+                del open_rings[r]
+                out.append(r)
+            elif len(open_rings) < 3:
+                r = rng.choice([x for x in free if x not in open_rings])
+                open_rings[r] = natoms[0]
+                out.append(r)
+
+    def line(depth, budget):
+        atom()
+        n = rng.randint(0, budget)
+        for _ in range(n):
+            x = rng.random()
+            if x < 0.25 and depth < 4 and natoms[0] < size:
+                out.append("(")
+                if rng.random() < 0.3:
+                    out.append(rng.choice(["=", "#", "-"]))
+                line(depth + 1, max(0, budget // 2))
+                out.append(")")
+            elif x < 0.3 and depth == 0:
+                out.append(".")
+                atom()
+            else:
+                if rng.random() < 0.25:
+                    out.append(rng.choice(["=", "#", "-"]))
+                atom()
+            if natoms[0] >= size:
+                break
+
+    line(0, size)
+    # close what is still open on fresh atoms at the end of the main chain
+    for r in list(open_rings):
+        if natoms[0] - open_rings[r] < 2:
+            natoms[0] += 1
+            out.append("C")
+        natoms[0] += 1
+        out.append("C")
+        out.append(r)
+        del open_rings[r]
+    return "".join(out)
+
+
+def drive_smiles(text):
+    from chmpy.fmt.smiles import parse
+    t = {"text": text, "toks": smiles_tokens(text), "exc": "", "atoms": [], "bonds": [],
+         "meta": {"recipe": text, "source": "smiles", "nontrivial": True, "impl_call": "chmpy.fmt.smiles.parse(%r)" % text}}
+    try:
+        atoms, bonds = parse(text)
+        t["atoms"] = [str(a) for a in atoms]
+        t["bonds"] = [[int(a), int(b), str(k)] for a, b, k in bonds]
+    except Exception as e:  # noqa: BLE001
+        t["exc"] = type(e).__name__
+    return t
+
+
 def drive(recipe):
     k = recipe["k"]
     d = scratch()
@@ -694,6 +788,21 @@ def run(ctx, explain=False):
     # beyond the listed property: .mol2 files as a source of molecules (Mol2File.tla: the specification writes the records)
     mtraces = pool_map(drive_mol2, mol2_recipes(random.Random(ctx.seed * 139 + 16), ctx.pick(150, 2000)), procs=1 if ctx.quick else None)
     ctx.validate("trace/Trace_Mol2File.tla", mtraces, name="Trace_Mol2File (extension)", extension=True, timeout=900)
+    # beyond the listed property: the SMILES reader as a token machine (Smiles.tla).  TLC checks the machine on every token
+    # string up to a depth and prints the well-formed ones; those and longer generated ones are read by the real parser
+    depth = ctx.pick(7, 9)
+    res = ctx.model_check("mc/MC_Smiles.tla", SMILES_MC_CFG % ("FALSE", depth, "TRUE"), name="MC_Smiles(depth %d)" % depth, timeout=1800, extension=True)
+    if explain:
+        r2 = tlc.run("mc/MC_Smiles.tla", SMILES_MC_CFG % ("TRUE", 8, "FALSE"), timeout=600)
+        print("as-built SMILES reader (one branch register, ring numbers never released): first invariant TLC finds violated: %s" % r2.violated)
+    words = sorted({w[2:] for w in (res.printed if res is not None else []) if w.startswith("W|")})
+    srng = random.Random(ctx.seed * 613 + 5)
+    if len(words) > ctx.pick(3000, 40000):
+        words = srng.sample(words, ctx.pick(3000, 40000))
+    words += ["C(C(C)C)C", "C1CC1C1CC1", "C%12CC%12", "c1ccccc1", "C12C3C4C1C5C4C3C25", "CC(=O)O", "ClC(Br)(I)F", "C(C(C(C(C)C)C)C)C", "N#CC#N"]
+    words += [random_smiles(srng, srng.randint(3, 30)) for _ in range(ctx.pick(1500, 20000))]
+    straces = pool_map(drive_smiles, sorted(set(words)), procs=1 if ctx.quick else None)
+    ctx.validate("trace/Trace_Smiles.tla", straces, consts="  AsBuilt = FALSE", name="Trace_Smiles (extension)", extension=True, timeout=1800)
     kinds = {}
     for t in traces:
         kinds[t["k"]] = kinds.get(t["k"], 0) + 1
